@@ -11,6 +11,7 @@ statements, only what matters for "a failing item leaves no trace":
     Commit           self._data_session.commit()
     SetPh            self._id_placeholder = ...
     Call f k         a call of another KmipEngine method; k = kind of managed object passed (loaded / transient / param / none)
+    CallOnce f k     the same when the call passes a one-entry dict / list literal over which all top-level loops of f iterate
 
 A variable is *loaded* when it comes from _get_object_with_access_controls / a session query, *transient* when it
 is constructed in the method (objects.X(...), factory.convert(...)); aliases (`a = managed_object.names`) inherit.
@@ -35,8 +36,8 @@ def q(s):
 
 
 class Fn:
-    def __init__(self, name, node, methods):
-        self.name, self.node, self.methods = name, node, methods
+    def __init__(self, name, node, methods, defs):
+        self.name, self.node, self.methods, self.defs = name, node, methods, defs
         self.kind = {}                                   # variable -> 'loaded' | 'transient' | 'param'
         for a in node.args.args[1:]:
             if a.arg == 'managed_object':
@@ -93,7 +94,7 @@ class Fn:
             elif isinstance(f, ast.Attribute) and self.is_self_attr(f) and f.attr in self.methods:
                 kinds = [self.kind[self.root(a)] for a in node.args if self.root(a) is not None]
                 k = kinds[0] if kinds else 'none'
-                out.append('(Call %s K%s)' % (q(f.attr), k))
+                out.append('(%s %s K%s)' % ('CallOnce' if self.loops_once(f.attr, node) else 'Call', q(f.attr), k))
             elif isinstance(f, ast.Name) and f.id == 'setattr':
                 r = self.root(node.args[0])
                 if r is None:
@@ -104,6 +105,35 @@ class Fn:
                 if r is not None:
                     out += self.mut_of(r)
         return out
+
+    def loops_once(self, callee, call):
+        """The callee's top-level loops all iterate over a parameter that this call binds to a one-entry dict / list
+        literal: each of them runs exactly once (CallOnce)."""
+        fn = self.defs[callee]
+        params = [a.arg for a in fn.args.args[1:]]
+        single = [params[i] for i, a in enumerate(call.args)
+                  if i < len(params) and isinstance(a, (ast.Dict, ast.List, ast.Tuple)) and
+                  len(a.keys if isinstance(a, ast.Dict) else a.elts) == 1 and
+                  not any(isinstance(x, ast.Starred) for x in (a.elts if not isinstance(a, ast.Dict) else [])) and
+                  (not isinstance(a, ast.Dict) or a.keys[0] is not None)]
+        loops = [st for st in fn.body if isinstance(st, (ast.For, ast.While))]
+        if not single or not loops:
+            return False
+        for lp in loops:
+            if not isinstance(lp, ast.For):
+                return False
+            names = {n.id for n in ast.walk(lp.iter) if isinstance(n, ast.Name)}
+            if not (names & set(single)):
+                return False
+        for n in ast.walk(fn):                       # the parameter must not be rebound or grown inside the callee
+            if isinstance(n, (ast.Assign, ast.AugAssign)):
+                for t in (n.targets if isinstance(n, ast.Assign) else [n.target]):
+                    if any(isinstance(x, ast.Name) and x.id in single for x in ast.walk(t)):
+                        return False
+            if isinstance(n, ast.Call) and isinstance(n.func, ast.Attribute) and isinstance(n.func.value, ast.Name) \
+                    and n.func.value.id in single and n.func.attr in MUTATING_METHODS | {'setdefault', '__setitem__'}:
+                return False
+        return True
 
     def walk_calls(self, e):
         """ast.Call nodes in evaluation order (arguments before the call itself)."""
@@ -271,6 +301,7 @@ def generate(repo):
         raise ValueError('class KmipEngine not found')
     fns = [n for n in cls[0].body if isinstance(n, ast.FunctionDef)]
     methods = {f.name for f in fns}
+    defs = {f.name: f for f in fns}
     lines = ['(* GENERATED by translate/gen_batchorder.py from kmip/services/server/engine.py - do not edit *)',
              'From Coq Require Import String List.', 'From PK Require Import Batch.Order.', 'Import ListNotations.',
              'Open Scope string_scope.', '']
@@ -280,7 +311,7 @@ def generate(repo):
             continue
         if f.name in ('_kmip_version_supported', '_synchronize'):
             continue                                       # decorators: their inner functions hold no store access
-        body = Fn(f.name, f, methods).block(f.body)
+        body = Fn(f.name, f, methods, defs).block(f.body)
         lines.append('Definition code_%s : code := %s.' % (f.name, body))
         names.append(f.name)
     lines.append('')
